@@ -55,7 +55,7 @@ Definition exB : hrg :=
                  (nY, [{| r_lhs := nY; r_rhs := mkg [v1] [ed 7 tb [v1]] [v1] |};
                        {| r_lhs := nY; r_rhs := mkg [v1] [ed 3 nY [v1]; ed 9 tb [v1]] [v1] |}])] |}.
 
-Example ex_wf : wf_hrg_b exA = true /\ wf_hrg_b exB = true /\ has_tt_conflict exA exB = false /\ ids_ok exA exB = true.
+Example ex_wf : wf_hrg_b exA = true /\ wf_hrg_b exB = true /\ has_tt_conflict exA exB = false.
 Proof. vm_compute. auto. Qed.
 
 (** the conjunction has 3 rules: S/S, the two base rules, the two recursive rules *)
@@ -90,10 +90,34 @@ Example ex_rule :
   let r2 := {| r_lhs := nY; r_rhs := mkg [v1] [ed 3 nY [v1]; ed 9 tb [v1]] [v1] |} in
   wf_rule_b r1 = true /\ wf_rule_b r2 = true /\ conjoinable_model r1 r2 = true /\
   match nonterminal_pairs_model exA exB with
-  | Ok m => match conjoin_rules_model r1 r2 m with
+  | Ok m => match conjoin_rules_model 9 r1 r2 m with
             | Ok r => conj_rule_ok r1 r2 m r && Nat.eqb (List.length (g_edges (r_rhs r))) 3
             | Err _ => false
             end
   | Err _ => false
   end = true.
+Proof. vm_compute. auto. Qed.
+
+(** conjoining a grammar with itself (every terminal-edge id is shared): the terminal edges of rule 2
+    get fresh implicit ids (10, 12: the least even numbers above all ids in use) *)
+Example ex_self :
+  match conjoin_hrgs_model exA exA with
+  | Ok g => (List.length (all_rules g),
+             List.map (fun r => List.map e_id (g_edges (r_rhs r))) (all_rules g))
+  | Err _ => (0, [])
+  end = (3, [[3]; [5; 6]; [3; 5; 6]]).
+Proof. vm_compute. reflexivity. Qed.
+
+(** implicit (even) ids on nonterminal edges: the new edges get fresh implicit ids, in id order,
+    implicit before explicit *)
+Definition exI : hrg :=
+  {| h_nlabels := [0]; h_elabels := [nS; nX; ta]; h_start := nS;
+     h_rules := [(nS, [{| r_lhs := nS; r_rhs := mkg [v1] [ed 3 nX [v1]; ed 4 nX [v1]; ed 2 nX [v1]] [] |}]);
+                 (nX, [{| r_lhs := nX; r_rhs := mkg [v1] [ed 5 ta [v1]] [v1] |}])] |}.
+Example ex_implicit :
+  wf_hrg_b exI = true /\
+  match conjoin_hrgs_model exI exI with
+  | Ok g => List.map (fun r => List.map e_id (nt_sorted r)) (all_rules g)
+  | Err _ => []
+  end = [[6; 8; 3]; []].
 Proof. vm_compute. auto. Qed.
